@@ -284,12 +284,24 @@ class ExprMixin:
             raise Unsupported('class attribute %s.%s' % (v.a['name'], attr))
         if t == 'slice':
             return [('val', st, v.a[{'start': 'lo', 'stop': 'hi', 'step': 'step'}[attr]] or VNone)]
-        if t in ('seq', 'list', 'dict', 'hlist'):
+        if t in ('seq', 'list', 'dict', 'hlist', 'kwargs'):
             return [('val', st, Val('func', None, listmethod=attr, bound=v, target=node))]
         if t == 'E':
             raise Unsupported('attribute %s of a published expression' % attr)
         if t == 'super':
             obj = v.a['obj']
+            if obj is not None and obj.ty == 'E':
+                # a published expression: its class is below the defining class in a single-inheritance chain, so the
+                # classes after the defining class in the MRO are those of the defining class itself
+                base = self.repo.mro(v.a['cls'])
+                for q_, info in self.repo.classes.items():        # checked on the class tree, not assumed
+                    m_ = self.repo.mro(q_)
+                    if v.a['cls'] in m_ and m_[m_.index(v.a['cls']):] != base:
+                        raise Unsupported('super() in %s: %s does not end its MRO with it' % (v.a['cls'], q_))
+                for b in base[1:]:
+                    if b + '.' + attr in self.repo.funcs:
+                        return [('val', st, Val('func', None, qual=b + '.' + attr, bound=obj))]
+                raise Unsupported('super().%s on a published expression' % attr)
             if obj is None or obj.ty not in ('obj', 'cls'):
                 raise Unsupported('super() without self')
             dyn = obj.a['cls'] if obj.ty == 'obj' else obj.a['name']
@@ -406,6 +418,11 @@ class ExprMixin:
                 self.oblige('%s@L%d#yielded-value-is-not-None' % (self.cur.key, n.lineno), s,
                             Not(item.a['isnone']), 'A')
                 item = item.a['some']
+            for h in self.reg.attr_hooks:       # domain-specific conversion of the yielded value to the element type
+                r = h(self, 'to-elem', (item, out.a['elem']), s)
+                if r is not None:
+                    item = r
+                    break
             xz = elem_z(item, out.a['elem'])
             new = Concat(out.z, Unit(xz))
             s.ghost['$out'] = VSeq(new, out.a['elem'])
